@@ -899,3 +899,267 @@ pub fn c14_scenario(ch: &mut Chooser, thorough: bool) -> Exec {
     }
     Exec { outcome: Digest::of64(&obs), violation, features: feats }
 }
+
+// ---------------------------------------------------------------------------------------
+// C03 with zero latency: a message whose latency has already elapsed counts as arrived.
+// Every datagram is sent with latency 0, so once its sender's turn is over it sits in the
+// hand-off queue of its destination; a partition call that comes afterwards (between steps,
+// from the Sim handle) must neither drop it nor anything of the reverse direction. Messages
+// sent while their direction is partitioned never arrive.
+pub fn c03_zero_latency_scenario(ch: &mut Chooser, thorough: bool) -> Exec {
+    let steps = if thorough { 6 } else { 5 };
+    let order_ba = ch.flag("b_registered_before_a");
+    let by_ip = ch.flag("hosts_named_by_ip");
+    let mut net = build(1, 0, 0.0, 1.0, order_ba);
+    let mut part = [false, false]; // A->B, B->A
+    let mut calls = 0;
+    let mut next_id = 1u32;
+    // (id, from, to, send step, forbidden)
+    let mut msgs: Vec<(u32, usize, usize, usize, bool)> = vec![];
+    let mut obs: Vec<String> = vec![];
+    let mut violation: Option<Violation> = None;
+    // warm-up: sockets bound
+    if let Err(e) = net.step(0) {
+        return Exec { outcome: 0, violation: Some(Violation::new("sim-error", e)), features: vec![] };
+    }
+    let total = steps + 3;
+    for k in 1..=total {
+        let suffix = k > steps;
+        let call = if !suffix && calls < 2 { ch.choose("partition_call_before_this_step", 7) } else if k == steps + 1 { 4 } else { 0 };
+        if call != 0 {
+            if !suffix {
+                calls += 1;
+            }
+            let (a, b) = (net.ips[0], net.ips[1]);
+            macro_rules! go {
+                ($f:ident, $x:expr, $y:expr, $nx:expr, $ny:expr) => {
+                    if by_ip {
+                        net.sim.$f($x, $y)
+                    } else {
+                        net.sim.$f($nx, $ny)
+                    }
+                };
+            }
+            match call {
+                1 => {
+                    go!(partition, a, b, NAMES[0], NAMES[1]);
+                    part = [true, true];
+                }
+                2 => {
+                    go!(partition_oneway, a, b, NAMES[0], NAMES[1]);
+                    part[0] = true;
+                }
+                3 => {
+                    go!(partition_oneway, b, a, NAMES[1], NAMES[0]);
+                    part[1] = true;
+                }
+                4 => {
+                    go!(repair, a, b, NAMES[0], NAMES[1]);
+                    part = [false, false];
+                }
+                5 => {
+                    go!(repair_oneway, a, b, NAMES[0], NAMES[1]);
+                    part[0] = false;
+                }
+                _ => {
+                    go!(repair_oneway, b, a, NAMES[1], NAMES[0]);
+                    part[1] = false;
+                }
+            }
+            obs.push(format!("before step {k}: call {call} -> partitioned [A->B, B->A] = {part:?}"));
+        }
+        if !suffix {
+            for (from, to) in [(0usize, 1usize), (1, 0), (0, 2), (2, 0)] {
+                let id = next_id;
+                next_id += 1;
+                let forbidden = match (from, to) {
+                    (0, 1) => part[0],
+                    (1, 0) => part[1],
+                    _ => false,
+                };
+                msgs.push((id, from, to, k, forbidden));
+                net.host_cmd(from, HostCmd::Send { to, id });
+            }
+        }
+        if let Err(e) = net.step(k) {
+            violation = Some(Violation::new("sim-error", e));
+            break;
+        }
+    }
+    if violation.is_none() {
+        let g = net.st.borrow();
+        for m in &msgs {
+            let got: Vec<usize> = g.recv[m.2].iter().filter(|r| r.0 == m.0).map(|r| r.2).collect();
+            if m.4 {
+                if !got.is_empty() {
+                    violation = Some(Violation::new(
+                        "delivered-across-partition",
+                        format!("datagram {} sent by {} to {} in step {} while that direction was explicitly partitioned was received in step {:?}", m.0, NAMES[m.1], NAMES[m.2], m.3, got),
+                    ));
+                    break;
+                }
+            } else if got.len() != 1 || got[0] < m.3 || got[0] > m.3 + 1 {
+                violation = Some(Violation::new(
+                    "not-delivered",
+                    format!(
+                        "datagram {} sent by {} to {} in step {} with zero latency while the direction was open was received in steps {:?}; its latency had elapsed before any later partition call, so it counts as arrived (expected exactly once, in step {} or {})",
+                        m.0, NAMES[m.1], NAMES[m.2], m.3, got, m.3, m.3 + 1
+                    ),
+                ));
+                break;
+            }
+        }
+    }
+    if let Some(v) = violation.as_mut() {
+        v.sig = format!("zero-latency|{}", v.clause);
+        v.scenario = format!("c03-zero tier={} order_ba={order_ba} by_ip={by_ip}", if thorough { "thorough" } else { "quick" });
+        v.actions = obs.clone();
+    }
+    Exec { outcome: Digest::of64(&obs), violation, features: vec![] }
+}
+
+// ---------------------------------------------------------------------------------------
+// C03 with TCP: replies that a host generates while handling an incoming segment (a reset
+// for a stream it has already dropped) are messages like any other — they do not cross an
+// explicitly partitioned direction.
+pub fn c03_tcp_scenario(ch: &mut Chooser, _thorough: bool) -> Exec {
+    use tokio::io::{AsyncReadExt, AsyncWriteExt};
+    use turmoil::net::{TcpListener, TcpStream};
+    let a_first = ch.flag("a_registered_first");
+    let from_host = ch.flag("partition_issued_from_host_code");
+    let full = ch.flag("two_way_partition_instead_of_oneway");
+    let repair_before: Option<usize> = *ch.of("repair_before_step", &[None, Some(10usize)]);
+    let mut b = builder(1);
+    b.min_message_latency(Duration::from_millis(1)).max_message_latency(Duration::from_millis(1));
+    let mut sim = b.build();
+    #[derive(Default)]
+    struct St {
+        step: usize,
+        b_writes: Vec<(usize, Result<(), String>)>,
+        b_read: Option<(usize, String)>,
+        go_drop: bool,
+        part_now: bool,
+    }
+    let st: Rc<RefCell<St>> = Rc::new(RefCell::new(St::default()));
+    let sa = st.clone();
+    let a_prog = move || {
+        let sa = sa.clone();
+        async move {
+            tokio::time::sleep(Duration::from_millis(1)).await;
+            let s = TcpStream::connect(("hb", 80)).await?;
+            loop {
+                if sa.borrow().part_now {
+                    sa.borrow_mut().part_now = false;
+                    if full {
+                        turmoil::partition("ha", "hb");
+                    } else {
+                        turmoil::partition_oneway("ha", "hb");
+                    }
+                }
+                if sa.borrow().go_drop {
+                    break;
+                }
+                tokio::time::sleep(Duration::from_millis(1)).await;
+            }
+            drop(s);
+            std::future::pending::<()>().await;
+            Ok(())
+        }
+    };
+    let sb = st.clone();
+    let b_prog = move || {
+        let sb = sb.clone();
+        async move {
+            let l = TcpListener::bind(("0.0.0.0", 80)).await?;
+            let (s, _) = l.accept().await?;
+            let (mut r, mut w) = s.into_split();
+            let sr = sb.clone();
+            tokio::task::spawn_local(async move {
+                let mut buf = [0u8; 4];
+                let res = r.read(&mut buf).await;
+                let step = sr.borrow().step;
+                sr.borrow_mut().b_read = Some((step, format!("{:?}", res.map_err(|e| e.kind()))));
+                std::future::pending::<()>().await;
+            });
+            // one byte per step from step 6 on
+            for i in 0..8u8 {
+                while sb.borrow().step < 6 + i as usize {
+                    tokio::time::sleep(Duration::from_millis(1)).await;
+                }
+                let res = w.write_all(&[i]).await.map_err(|e| format!("{:?}", e.kind()));
+                let step = sb.borrow().step;
+                sb.borrow_mut().b_writes.push((step, res));
+            }
+            std::future::pending::<()>().await;
+            Ok(())
+        }
+    };
+    if a_first {
+        sim.host("ha", a_prog);
+        sim.host("hb", b_prog);
+    } else {
+        sim.host("hb", b_prog);
+        sim.host("ha", a_prog);
+    }
+    let mut obs: Vec<String> = vec![];
+    let mut violation: Option<Violation> = None;
+    for k in 0..16 {
+        st.borrow_mut().step = k;
+        if k == 4 {
+            if from_host {
+                st.borrow_mut().part_now = true;
+            } else if full {
+                sim.partition("ha", "hb");
+            } else {
+                sim.partition_oneway("ha", "hb");
+            }
+            obs.push(format!("step {k}: {} ha -> hb{}", if full { "partition" } else { "partition_oneway" }, if from_host { " (host code)" } else { "" }));
+        }
+        if k == 5 {
+            st.borrow_mut().go_drop = true; // a drops its stream: the FIN is lost in the partition
+        }
+        if Some(k) == repair_before {
+            if full {
+                sim.repair("ha", "hb");
+            } else {
+                sim.repair_oneway("ha", "hb");
+            }
+            obs.push(format!("before step {k}: repair"));
+        }
+        if let Err(e) = vx_core::catch(|| sim.step()).unwrap_or_else(|p| Err(p.into())) {
+            violation = Some(Violation::new("sim-error", e.to_string()));
+            break;
+        }
+    }
+    let g = st.borrow();
+    obs.push(format!("b writes {:?}, b read {:?}", g.b_writes, g.b_read));
+    if violation.is_none() {
+        // while ha -> hb is partitioned nothing ha emits may reach hb: hb's writes keep
+        // succeeding and its read stays pending
+        let until = repair_before.unwrap_or(usize::MAX);
+        // (a two-way partition also stops hb's data, so ha never has anything to answer)
+        for (step, r) in &g.b_writes {
+            if *step < until && r.is_err() {
+                violation = Some(Violation::new(
+                    "delivered-across-partition",
+                    format!("hb's write in step {step} failed with {:?} while ha -> hb was explicitly partitioned: a message of ha (the reset for its dropped stream) crossed the partition", r),
+                ));
+                break;
+            }
+        }
+        if violation.is_none() {
+            if let Some((step, r)) = &g.b_read {
+                if *step < until {
+                    violation = Some(Violation::new("delivered-across-partition", format!("hb's pending read completed with {r} in step {step} while ha -> hb was explicitly partitioned")));
+                }
+            }
+        }
+    }
+    drop(g);
+    if let Some(v) = violation.as_mut() {
+        v.sig = format!("tcp-reply|{}", v.clause);
+        v.scenario = format!("c03-tcp a_first={a_first} from_host={from_host} full={full} repair_before={repair_before:?}");
+        v.actions = obs.clone();
+    }
+    Exec { outcome: Digest::of64(&obs), violation, features: vec![] }
+}
